@@ -627,7 +627,7 @@ def run(ctx: Ctx):
 
 def c02_assumptions():
     return [
-        "one optional argument without nargs/default/enable_path; parser_mode yaml; values inside the wire grammar (str/int dict keys, |int| < 10^300)",
+        "one optional argument without nargs/default/enable_path; parser_mode yaml; values inside the wire grammar (str/int dict keys, |int| < 10^400; an int beyond the float range is rejected for float)",
         "PyYAML + yaml_load/load_value, int(str) for dict keys and repr(float(int)) for |int| > 2^53 are oracles of the model (supplied per case)",
         "dict keys contain no '.', values contain no 'class_path' key and no '__path__' key",
     ]
